@@ -11,6 +11,10 @@ cherab):
                             over the first/last touched bin, and integrates by GaussianQuadrature(rtol 1e-5))
   total                   : sum(samples) x delta = radiance x fraction of the profile inside the window, the fraction
                             computed from the two window edges only
+  bins_stark_coarse /     : the same two comparisons on Stark grids with bins wider than FWHM/10, where the default
+  total_stark_coarse        quadrature of add_lorentzian_line loses accuracy (continuously: 3e-5 at FWHM/4, 4e-4 at 1-2 FWHM,
+                            7 % at 16-40 FWHM, factors beyond); violations there carry the separate mechanism key
+                            StarkBroadenedLine:lorentzian-bin-quadrature-unresolved (known finding, fix proposed)
   pol_sum                 : pi + sigma = unpolarised, bin by bin (three calls on identical inputs)
   zero_width              : width-less line => a pre-filled spectrum is returned bit-identical
   adds                    : on a pre-filled spectrum the increment equals what is added to a zero spectrum
@@ -46,7 +50,9 @@ ASSUMPTIONS = [
     "1/2 sin^2 (pi) and 1/4 sin^2 + 1/2 cos^2 (each sigma), Lomanowski pseudo-Voigt fits, MSE ratios as in the class docstrings",
     "physical constants agree with the oracle's to 1e-7 relative (two CODATA sets coexist in the code base)",
     "modified-Lorentzian parts are accepted between the documented truncated profile and the un-truncated one, within "
-    "2e-4 relative (20x the documented quadrature tolerance 1e-5)",
+    "2e-4 relative (20x the documented quadrature tolerance 1e-5); Stark grids with bins wider than FWHM/10 are judged "
+    "with the same tolerance but under the separate key of the known quadrature finding",
+    "StarkBroadenedLine is driven with its default integrator GaussianQuadrature() only",
     "Zeeman structures with an empty or all-zero polarisation list, MSE calls with n_e <= 0 or T_e <= 0 and Stark "
     "parameters within 1e-6 relative of a fit-branch switching point are outside the statement (counted as skipped)",
 ]
